@@ -668,3 +668,26 @@ impl Grammar {
         g
     }
 }
+
+impl Grammar {
+    /// rename a scanner state everywhere (declaration, terminal state lists, transitions)
+    pub fn rename_state(&self, old: &str, new: &str) -> Grammar {
+        let mut g = self.clone();
+        for st in g.states.iter_mut() {
+            if st.name == old {
+                st.name = new.to_string();
+            }
+            for (_, tr) in st.on.iter_mut() {
+                match tr {
+                    Trans::Enter(n) | Trans::Push(n) => {
+                        if n == old {
+                            *n = new.to_string();
+                        }
+                    }
+                    Trans::Pop => {}
+                }
+            }
+        }
+        g
+    }
+}
